@@ -18,7 +18,7 @@ BIAS = dict(n_test_faults=[0, 1, 2, 3, 4, 5], n_layer_faults=[0, 0, 1, 2],
             p_shuffle=0.15, v=[0, 1, 2, 3], p_occ=0.2,
             test_excs=['AssertionError', 'ValueError', 'KeyError', 'CustomError', 'SystemExit',
                        'TypeError', 'OSError', 'SkipTest', 'BadStr'],
-            profile=dict(p_subtests=0.25, p_setup=0.6, p_teardown=0.6, p_cleanup=0.35))
+            profile=dict(p_doctest=0.2, p_subtests=0.25, p_setup=0.6, p_teardown=0.6, p_cleanup=0.35))
 
 
 def gen(seed):
